@@ -21,7 +21,7 @@ from .. import seams
 from ..seams import quiet
 
 PROP = 'C16'
-TIERS = {'quick': 7500, 'thorough': 80000}
+TIERS = {'quick': 7500, 'thorough': 104000}
 RULE = ('each run: one adapter (Axi2Reg or Reg2Axi, register width 1-64) or a kernel of 1-3 Axi2Reg + 1-2 Reg2Axi behind '
         'VitisKernelFSM, 40-400 cycles of seeded control pulses and peer handshakes with stalls, bursts, reset/done/'
         'restart landing inside transfers; non-trivial = >= 1 beat was transferred and >= 1 fault landed while a '
